@@ -15,6 +15,7 @@ import (
 	"bytes"
 	"encoding/json"
 	"fmt"
+	enumspb "go.temporal.io/api/enums/v1"
 	"os"
 	"reflect"
 	"sort"
@@ -276,6 +277,20 @@ func vu8Build(m protoreflect.Message, path []string, leaf string) error {
 	fd := md.Fields().ByName(protoreflect.Name(path[0]))
 	if fd == nil {
 		return fmt.Errorf("no field %s in %s", path[0], md.FullName())
+	}
+	// a real server writes the discriminating enum next to the oneof member: HistoryEvent.event_type, Command.command_type
+	if od := fd.ContainingOneof(); od != nil && od.Name() == "attributes" {
+		switch md.FullName() {
+		case "temporal.api.history.v1.HistoryEvent":
+			m.Set(md.Fields().ByName("event_id"), protoreflect.ValueOfInt64(7))
+			if ev, ok := enumspb.EventType_value["EVENT_TYPE_"+strings.ToUpper(strings.TrimSuffix(path[0], "_event_attributes"))]; ok {
+				m.Set(md.Fields().ByName("event_type"), protoreflect.ValueOfEnum(protoreflect.EnumNumber(ev)))
+			}
+		case "temporal.api.command.v1.Command":
+			if cv, ok := enumspb.CommandType_value["COMMAND_TYPE_"+strings.ToUpper(strings.TrimSuffix(path[0], "_command_attributes"))]; ok {
+				m.Set(md.Fields().ByName("command_type"), protoreflect.ValueOfEnum(protoreflect.EnumNumber(cv)))
+			}
+		}
 	}
 	if len(path) == 1 {
 		if fd.Kind() != protoreflect.StringKind {
@@ -571,6 +586,10 @@ func TestVerifUtf8Obligations(t *testing.T) {
 					return
 				}
 				wire = bytes.ReplaceAll(wire, []byte("@#@#"), bad)
+			}
+			if ob.Kind == "valid" {
+				// a field this schema does not know (field 19999, varint 7): the standard codec keeps it as an unknown field
+				wire = append(wire, 0xf8, 0xe1, 0x09, 0x07)
 			}
 			if ob.Kind == "class" && ob.Class.Wire == "truncated" {
 				wire = wire[:len(wire)-3]
